@@ -873,6 +873,7 @@ impl Sym {
 
     pub const fn lit(x: f64) -> Sym { Sym { node: LIT, lit: x } }
     pub fn from_usize(n: usize) -> Sym { Sym::lit(n as f64) }
+    pub fn cast_from<T: CastF64>(n: T) -> Sym { Sym::lit(n.cast_f64()) }
     pub fn from_isize(n: isize) -> Sym { Sym::lit(n as f64) }
     pub fn from_i32(n: i32) -> Sym { Sym::lit(n as f64) }
     pub fn rat(n: i128, d: i128) -> Sym { with(|e| e.from_cval(CVal::R(Rat::new(n, d).expect("rat")))) }
@@ -979,6 +980,15 @@ fn show_node(e: &Engine, i: u32, depth: usize) -> String {
         Node::Fun2(f, a, b) => format!("{}({}, {})", f, show_node(e, *a, depth + 1), show_node(e, *b, depth + 1)),
         Node::Fresh(k) => format!("fresh{}", k),
     }
+}
+
+pub trait CastF64 { fn cast_f64(self) -> f64; }
+macro_rules! castf64 { ($($t:ty)*) => { $( impl CastF64 for $t { fn cast_f64(self) -> f64 { self as f64 } } )* } }
+castf64!(usize isize u8 u16 u32 u64 i8 i16 i32 i64 f32 f64);
+
+impl std::str::FromStr for Sym {
+    type Err = std::num::ParseFloatError;
+    fn from_str(s: &str) -> Result<Sym, Self::Err> { s.parse::<f64>().map(Sym::lit) }
 }
 
 #[track_caller]
